@@ -30,10 +30,13 @@ def gen_cases(run, n, prefix="c"):
         if rng.random() < 0.3:
             opts["normalization"] = "rust"
         if i % 5 == 4:
+            # delivered through the derive macro: the option this property depends on is on, next to a bare flag
             opts["skip_none"] = True
+            opts["other_variant"] = other = True
         c = C.make_case("%s%d" % (prefix, i), schema, doc, rng, options=opts, features=feats)
         if i % 5 == 4:
             c["attr_focus"] = "fragments_other_variant"
+            c["attr_mode"] = i // 5
             c["delivery"] = "derive"      # the options arrive through the derive attribute (items in a per-case order)
             run.count("derive-delivery")
         vecs, stats = C.resp_vectors(c, rng, n_payloads=4, n_corrupt_bases=run.size(2, 4), other_variant=other)
